@@ -144,6 +144,10 @@ class VerusUnit:
                     if f2 is not None and not s2.get('is_primary'):
                         f = f2
             lab = [l for l in labels if sp['line_start'] <= l['line'] <= sp['line_end']]
+            if kind == 'pre':
+                # the violated requires-clause is a secondary span: its label names the obligation
+                for s2 in d['spans']:
+                    lab += [l for l in labels if s2['line_start'] <= l['line'] <= s2['line_end'] and l not in lab]
             props = sorted(set(p for l in lab for p in l['props']))
             src = '\n'.join(lines[sp['line_start'] - 1:sp['line_end']])
             helper = bool(re.search(r'//\s*\(helper', src))
